@@ -4,62 +4,110 @@ import OdfModel.Gen.Colors
 /-!
 # C18 — date, time, duration, boolean, colour codecs: exact inverses, ODF lexical form
 
-Model: `OdfModel/Codec.lean`. All statements are unbounded (every whole-second duration of
-either sign, every colour, every valid date / datetime / offset).
+Model: `OdfModel/Codec.lean`. All statements are unbounded (every duration of either sign down
+to the microsecond, every colour, every valid date / datetime / offset).
 -/
 namespace Odf.C18
 open Odf.Coord Odf.Codec
 
 /-! ### Duration -/
 
+/-- the fraction written after the seconds: nothing for whole seconds, else `.` and the
+    microseconds as six digits with the trailing zeros stripped -/
+def fracPart (m : Nat) : List Char :=
+  if m = 0 then [] else '.' :: digitsStr (rstripZeros (fixedDigits 6 m))
+
 theorem encodeDur_shape (total : Int) :
     encodeDur total =
       (if total < 0 then ['-'] else []) ++ 'P' :: 'T' ::
         (digitsStr (pad2 (total.natAbs / 3600000000)) ++ 'H' ::
           (digitsStr (pad2 (total.natAbs % 3600000000 / 60000000)) ++ 'M' ::
-            (digitsStr (pad2 (total.natAbs % 3600000000 % 60000000 / 1000000)) ++ ['S']))) := by
-  simp [encodeDur]
+            (digitsStr (pad2 (total.natAbs % 3600000000 % 60000000 / 1000000)) ++
+              (fracPart (total.natAbs % 3600000000 % 60000000 % 1000000) ++ ['S'])))) := by
+  simp [encodeDur, fracPart]
 
 /-- the encoded string is in the xsd:duration lexical space: optional `-`, `PT`, then three
-    non-empty all-digit fields (each at least two digits) closed by `H`, `M`, `S`. -/
+    non-empty all-digit fields (each at least two digits) closed by `H`, `M`, `S`, the seconds
+    optionally followed by `.` and one to six digits not ending in a stripped-away zero run. -/
 theorem duration_lexical (total : Int) :
-    ∃ hh mm ss : List Nat,
-      (∀ d ∈ hh ++ mm ++ ss, d < 10) ∧ 2 ≤ hh.length ∧ mm.length = 2 ∧ ss.length = 2 ∧
+    ∃ hh mm ss ff : List Nat,
+      (∀ d ∈ hh ++ mm ++ ss ++ ff, d < 10) ∧ 2 ≤ hh.length ∧ mm.length = 2 ∧ ss.length = 2 ∧ ff.length ≤ 6 ∧
+      (ff = [] ↔ total % 1000000 = 0) ∧
       encodeDur total = (if total < 0 then ['-'] else []) ++ 'P' :: 'T' ::
-        (digitsStr hh ++ 'H' :: (digitsStr mm ++ 'M' :: (digitsStr ss ++ ['S']))) := by
-  refine ⟨pad2 (total.natAbs / 3600000000), pad2 (total.natAbs % 3600000000 / 60000000),
-    pad2 (total.natAbs % 3600000000 % 60000000 / 1000000), ?_, ?_, ?_, ?_, encodeDur_shape total⟩
-  · intro d hd
-    simp only [List.mem_append] at hd
-    rcases hd with (hd | hd) | hd <;> exact pad2_lt10 _ d hd
-  · unfold pad2
-    split
-    · simp
-    · exact toDec_length_ge2 _ (by omega)
-  · have : total.natAbs % 3600000000 / 60000000 < 60 := by omega
-    unfold pad2; split
-    · simp
-    · rename_i h
-      have h2 := toDec_two (total.natAbs % 3600000000 / 60000000) (by omega) (by omega)
-      rw [h2]; rfl
-  · have : total.natAbs % 3600000000 % 60000000 / 1000000 < 60 := by omega
-    unfold pad2; split
-    · simp
-    · rename_i h
-      have h2 := toDec_two (total.natAbs % 3600000000 % 60000000 / 1000000) (by omega) (by omega)
-      rw [h2]; rfl
+        (digitsStr hh ++ 'H' :: (digitsStr mm ++ 'M' :: (digitsStr ss ++
+          ((if ff = [] then [] else '.' :: digitsStr ff) ++ ['S'])))) := by
+  by_cases hm : total.natAbs % 3600000000 % 60000000 % 1000000 = 0
+  · refine ⟨pad2 (total.natAbs / 3600000000), pad2 (total.natAbs % 3600000000 / 60000000),
+      pad2 (total.natAbs % 3600000000 % 60000000 / 1000000), [], ?_, ?_, ?_, ?_, by simp, ?_, ?_⟩
+    · intro d hd
+      simp only [List.mem_append, List.append_nil] at hd
+      rcases hd with (hd | hd) | hd <;> exact pad2_lt10 _ d hd
+    · unfold pad2
+      split
+      · simp
+      · exact toDec_length_ge2 _ (by omega)
+    · have : total.natAbs % 3600000000 / 60000000 < 60 := by omega
+      unfold pad2; split
+      · simp
+      · rename_i h
+        have h2 := toDec_two (total.natAbs % 3600000000 / 60000000) (by omega) (by omega)
+        rw [h2]; rfl
+    · have : total.natAbs % 3600000000 % 60000000 / 1000000 < 60 := by omega
+      unfold pad2; split
+      · simp
+      · rename_i h
+        have h2 := toDec_two (total.natAbs % 3600000000 % 60000000 / 1000000) (by omega) (by omega)
+        rw [h2]; rfl
+    · simp only [true_iff]; omega
+    · rw [encodeDur_shape, fracPart, if_pos hm]; simp
+  · have hlt : total.natAbs % 3600000000 % 60000000 % 1000000 < 1000000 := by omega
+    have hne : rstripZeros (fixedDigits 6 (total.natAbs % 3600000000 % 60000000 % 1000000)) ≠ [] := by
+      apply rstripZeros_ne_nil
+      rw [decVal_fixedDigits]; omega
+    refine ⟨pad2 (total.natAbs / 3600000000), pad2 (total.natAbs % 3600000000 / 60000000),
+      pad2 (total.natAbs % 3600000000 % 60000000 / 1000000),
+      rstripZeros (fixedDigits 6 (total.natAbs % 3600000000 % 60000000 % 1000000)), ?_, ?_, ?_, ?_, ?_, ?_, ?_⟩
+    · intro d hd
+      simp only [List.mem_append] at hd
+      rcases hd with ((hd | hd) | hd) | hd
+      · exact pad2_lt10 _ d hd
+      · exact pad2_lt10 _ d hd
+      · exact pad2_lt10 _ d hd
+      · exact rstripZeros_lt10 _ (fixedDigits_lt10 6 _) d hd
+    · unfold pad2
+      split
+      · simp
+      · exact toDec_length_ge2 _ (by omega)
+    · have : total.natAbs % 3600000000 / 60000000 < 60 := by omega
+      unfold pad2; split
+      · simp
+      · rename_i h
+        have h2 := toDec_two (total.natAbs % 3600000000 / 60000000) (by omega) (by omega)
+        rw [h2]; rfl
+    · have : total.natAbs % 3600000000 % 60000000 / 1000000 < 60 := by omega
+      unfold pad2; split
+      · simp
+      · rename_i h
+        have h2 := toDec_two (total.natAbs % 3600000000 % 60000000 / 1000000) (by omega) (by omega)
+        rw [h2]; rfl
+    · have := rstripZeros_length_le (fixedDigits 6 (total.natAbs % 3600000000 % 60000000 % 1000000))
+      rw [fixedDigits_length] at this; exact this
+    · constructor
+      · intro h; exact absurd h hne
+      · intro h; omega
+    · rw [encodeDur_shape, fracPart, if_neg hm, if_neg hne]
 
-theorem decodeDur_pos_body (hh mm ss : List Nat)
+theorem decodeDur_pos_body (hh mm ss : List Nat) (m : Nat) (hm : m < 1000000)
     (hh10 : ∀ d ∈ hh, d < 10) (mm10 : ∀ d ∈ mm, d < 10) (ss10 : ∀ d ∈ ss, d < 10)
     (hhne : hh ≠ []) (mmne : mm ≠ []) (ssne : ss ≠ []) :
-    decodeDurBody ('P' :: 'T' :: (digitsStr hh ++ 'H' :: (digitsStr mm ++ 'M' :: (digitsStr ss ++ ['S'])))) =
-      some (((decVal hh * 60 + decVal mm) * 60 + decVal ss) * 1000000) := by
+    decodeDurBody ('P' :: 'T' :: (digitsStr hh ++ 'H' :: (digitsStr mm ++ 'M' :: (digitsStr ss ++ (fracPart m ++ ['S']))))) =
+      some (((decVal hh * 60 + decVal mm) * 60 + decVal ss) * 1000000 + m) := by
   unfold decodeDurBody
   simp only
-  have hD : optNum 'D' ('T' :: (digitsStr hh ++ 'H' :: (digitsStr mm ++ 'M' :: (digitsStr ss ++ ['S']))))
-      = (none, 'T' :: (digitsStr hh ++ 'H' :: (digitsStr mm ++ 'M' :: (digitsStr ss ++ ['S'])))) := by
+  have hD : optNum 'D' ('T' :: (digitsStr hh ++ 'H' :: (digitsStr mm ++ 'M' :: (digitsStr ss ++ (fracPart m ++ ['S'])))))
+      = (none, 'T' :: (digitsStr hh ++ 'H' :: (digitsStr mm ++ 'M' :: (digitsStr ss ++ (fracPart m ++ ['S']))))) := by
     have := optNum_miss 'D' 'T' (by decide) (by decide) [] (by simp)
-      (digitsStr hh ++ 'H' :: (digitsStr mm ++ 'M' :: (digitsStr ss ++ ['S'])))
+      (digitsStr hh ++ 'H' :: (digitsStr mm ++ 'M' :: (digitsStr ss ++ (fracPart m ++ ['S']))))
     simpa [digitsStr] using this
   rw [hD]
   simp only
@@ -75,22 +123,32 @@ theorem decodeDur_pos_body (hh mm ss : List Nat)
     simp only
     rw [optNum_hit 'M' (by decide) mm mmne mm10]
     simp only
-    rw [optSec_plain ss ssne ss10]
-    simp [fracMicros, numVal, decVal, charDigit]
+    by_cases hm0 : m = 0
+    · subst hm0
+      simp only [fracPart, if_true, List.nil_append]
+      rw [optSec_plain ss ssne ss10]
+      simp [fracMicros, numVal, decVal, charDigit]
+    · have hne : rstripZeros (fixedDigits 6 m) ≠ [] := by
+        apply rstripZeros_ne_nil
+        rw [decVal_fixedDigits]; omega
+      simp only [fracPart, if_neg hm0, List.cons_append]
+      rw [optSec_frac ss _ ssne hne ss10 (rstripZeros_lt10 _ (fixedDigits_lt10 6 m))]
+      simp [fracMicros_frac m hm]
 
-/-- **duration round trip**: for every whole-second duration of either sign,
+/-- **duration round trip**: for EVERY duration of either sign, down to the microsecond,
     `Duration.decode(Duration.encode(d)) == d`. -/
-theorem duration_roundtrip (total : Int) (hw : total % 1000000 = 0) :
+theorem duration_roundtrip (total : Int) :
     decodeDur (encodeDur total) = some total := by
   rw [encodeDur_shape]
   have key := decodeDur_pos_body (pad2 (total.natAbs / 3600000000))
     (pad2 (total.natAbs % 3600000000 / 60000000))
     (pad2 (total.natAbs % 3600000000 % 60000000 / 1000000))
+    (total.natAbs % 3600000000 % 60000000 % 1000000) (by omega)
     (pad2_lt10 _) (pad2_lt10 _) (pad2_lt10 _) (pad2_ne_nil _) (pad2_ne_nil _) (pad2_ne_nil _)
   simp only [decVal_pad2] at key
   have harith : ((total.natAbs / 3600000000 * 60 + total.natAbs % 3600000000 / 60000000) * 60 +
-      total.natAbs % 3600000000 % 60000000 / 1000000) * 1000000 = total.natAbs := by
-    have : total.natAbs % 1000000 = 0 := by omega
+      total.natAbs % 3600000000 % 60000000 / 1000000) * 1000000 +
+      total.natAbs % 3600000000 % 60000000 % 1000000 = total.natAbs := by
     omega
   rw [harith] at key
   by_cases hneg : total < 0
